@@ -31,6 +31,10 @@ def scripts(tier, r):
                 lts = [ops] + [list(sk)] * (nl - 1)
                 out.append((f"s{i} r0,r1,r2,r3,r4,r5,b0,fk0,fk1,fk2,fk3 " + "|".join(",".join(o) if o else "-" for o in lts), lts))
                 i += 1
+        # after a failed allocation ('Failed to allocate JIT memory', the library's own panic) the process goes on: ordinary lifetimes on this thread and on a fresh one
+        if sk:
+            lts = [list(sk) + ["NOMEM:r5"], list(sk), ["THREAD"] + list(sk), ["I:r5:raw:1", "C:r5"]]
+            plain.append((f"nm{i} r0,r1,r2,r3,r4,r5,b0,fk0,fk1,fk2,fk3 " + "|".join(",".join(o) for o in lts), lts)); i += 1
         # and the skeleton alone (no injected panic), twice in a row: the pending expectations decide how the scope is left
         plain.append((f"p{i} r0,r1,r2,r3,r4,r5,b0,fk0,fk1,fk2,fk3 " + "|".join([",".join(sk) if sk else "-"] * 2), [list(sk), list(sk)])); i += 1
     return out, plain
